@@ -150,30 +150,43 @@ Proof. exact public_get_mapping_example. Qed.
 Print Assumptions C09_public_get_mapping_example.
 
 (* THE STACK.  mask_occupancy = the largest number of entries the stack of the .pyx loop ever holds (cells of stack_index /
-   stack_depth needed).  For ANY buffers, scope and fuel it is at most atoms_count + (query atoms - 1) * largest neighbour
-   list: this allocation repairs the finding stack-overflow. *)
-Theorem C09_stack_bound_sufficient : forall qu mo scope fuel,
-  (mask_occupancy qu mo scope fuel <= alloc_sufficient qu mo)%nat.
+   stack_depth needed).  Since 25e27ca the .pyx allocates atoms_count * query.atoms_count cells (alloc_pyx): that is always
+   enough - every query component with at least one atom, every molecule whose neighbour dicts have distinct keys inside
+   the molecule, every scope, any fuel.  (One atom: atoms_count cells, exactly the depth-0 entries.) *)
+Theorem C09_stack_bound_sufficient : forall rq rm scope fuel, rq <> [] -> adj_ok rm ->
+  (mask_occupancy (enc_query rq) (enc_mol rm) scope fuel <= alloc_pyx (enc_query rq) (enc_mol rm))%nat.
 Proof. exact stack_bound_sufficient. Qed.
 Print Assumptions C09_stack_bound_sufficient.
 
-(* the one-line repair `stack_size = molecule.atoms_count * query.atoms_count`: enough for the buffers of every well-formed molecule *)
-Theorem C09_stack_bound_simple : forall rq rm scope fuel, rq <> [] -> wf_mol rm ->
-  (mask_occupancy (enc_query rq) (enc_mol rm) scope fuel <= alloc_simple (enc_query rq) (enc_mol rm))%nat.
-Proof. exact stack_bound_simple. Qed.
-Print Assumptions C09_stack_bound_simple.
+(* the tight bound, for ANY buffers: atoms_count entries of depth 0 + one batch (at most a neighbour list) per further depth *)
+Theorem C09_stack_bound_tight : forall qu mo scope fuel,
+  (mask_occupancy qu mo scope fuel <= alloc_tight qu mo)%nat.
+Proof. exact stack_bound_tight. Qed.
+Print Assumptions C09_stack_bound_tight.
 
-(* what the .pyx allocates (2 * atoms_count) is exceeded inside all hypotheses of the equivalence theorems (known finding) *)
+Theorem C09_wf_mol_adj_ok : forall rm, wf_mol rm -> adj_ok rm.
+Proof. exact wf_mol_adj_ok. Qed.
+Print Assumptions C09_wf_mol_adj_ok.
+
+(* non-vacuity / history: K5 on itself needs 11 cells, the star query on SF6 22; both fit the new allocation *)
+Theorem C09_stack_bound_examples :
+  adj_ok k5_rm /\ occ_of k5_rq k5_rm = 11%nat /\ alloc_pyx (enc_query k5_rq) (enc_mol k5_rm) = 25%nat /\
+  adj_ok sf6s_rm /\ occ_of star_rq sf6s_rm = 22%nat /\ alloc_pyx (enc_query star_rq) (enc_mol sf6s_rm) = 49%nat /\
+  alloc_tight (enc_query star_rq) (enc_mol sf6s_rm) = 43%nat.
+Proof. exact stack_bound_examples. Qed.
+Print Assumptions C09_stack_bound_examples.
+
+(* history of the fixed finding stack-overflow: the former allocation 2 * atoms_count was exceeded inside all hypotheses of the
+   equivalence theorems, and so is atoms_count + number of bond records (the repair suggested first) *)
 Theorem C09_stack_bound_2n_refuted :
-  hyps_ok k5_rq k5_rm = true /\ occ_of k5_rq k5_rm = 11%nat /\ alloc_pyx (enc_mol k5_rm) = 10%nat /\
-  hyps_ok sf6_rq sf6_rm = true /\ occ_of sf6_rq sf6_rm = 16%nat /\ alloc_pyx (enc_mol sf6_rm) = 14%nat.
+  hyps_ok k5_rq k5_rm = true /\ occ_of k5_rq k5_rm = 11%nat /\ alloc_2n (enc_mol k5_rm) = 10%nat /\
+  hyps_ok sf6_rq sf6_rm = true /\ occ_of sf6_rq sf6_rm = 16%nat /\ alloc_2n (enc_mol sf6_rm) = 14%nat.
 Proof. exact stack_bound_2n_refuted. Qed.
 Print Assumptions C09_stack_bound_2n_refuted.
 
-(* atoms_count + number of bond records (the repair suggested first) is not enough either *)
 Theorem C09_stack_bound_atoms_plus_bonds_refuted :
   hyps_ok star_rq sf6s_rm = true /\ occ_of star_rq sf6s_rm = 22%nat /\ alloc_atoms_plus_bonds (enc_mol sf6s_rm) = 19%nat /\
-  alloc_sufficient (enc_query star_rq) (enc_mol sf6s_rm) = 43%nat.
+  alloc_tight (enc_query star_rq) (enc_mol sf6s_rm) = 43%nat.
 Proof. exact stack_bound_atoms_plus_bonds_refuted. Qed.
 Print Assumptions C09_stack_bound_atoms_plus_bonds_refuted.
 
